@@ -196,6 +196,75 @@ def cls_scenarios_limits(rnd):
     return dict(res=60, ntasks=6, nres=6, weeks=4), "\n".join(L) + "\n"
 
 
+def cls_gaplength(rnd):
+    """working-time gaps (gaplength) and maxgapduration, incl. gaps that run past the horizon"""
+    m = gen.gen(rnd, subslot=False, ntasks=(2, 6), res_choices=(60, 30), weeks=(1, 3), alap=rnd.random() < 0.2, onstart=False)
+    text = gen.render(m)
+    val = rnd.choice(["1h", "8h", "3d", "30d", "200d", "1w", "90min", "0h"])
+    kind = rnd.choice(["gaplength", "gaplength", "maxgapduration"])
+    deps = list(re.finditer(r"depends ([^\n{]+?)(\n| \{)", text))
+    if deps:
+        d = rnd.choice(deps)
+        ref = d.group(1).split(",")[0].strip()
+        text = text[:d.start()] + "depends %s { %s %s }\n" % (ref, kind, val) + ("" if d.group(2) == "\n" else "  # ") + text[d.end():]
+    return m, text
+
+
+def cls_macros(rnd):
+    """macro definitions: nested, with arguments, undefined, self-referential and mutually recursive ones"""
+    m = gen.gen(rnd, subslot=False, ntasks=(1, 4), res_choices=(60,), weeks=(1, 3))
+    text = gen.render(m)
+    k = rnd.randrange(8)
+    defs = {
+        0: "macro m [ ${m} ]\n", 1: "macro m [ ${m} ${m} ]\n", 2: "macro a [ ${b} ]\nmacro b [ ${a} ${a} ]\n",
+        3: "macro e [ effort $1 ]\n", 4: "macro outer [ ${inner} ]\nmacro inner [ priority 700 ]\n", 5: "macro grow [ ${grow $1 $1} ]\n",
+        6: "macro unused [ ]\n", 7: "macro q [ \"a ] b\" ]\n"}[k]
+    use = {0: "${m}", 1: "${m}", 2: "${a}", 3: "${e 3h}", 4: "${outer}", 5: "${grow x}", 6: "${undefined_macro}", 7: "${q}"}[k]
+    # put the use inside the first task body (after its opening brace) or as a stray line
+    i = text.find("task ")
+    j = text.find("{", i)
+    if i >= 0 and j >= 0 and rnd.random() < 0.8:
+        text = defs + text[:j + 1] + "\n  " + use + text[j + 1:]
+    else:
+        text = defs + text + use + "\n"
+    return m, text
+
+
+def cls_out_of_window(rnd):
+    """leaves / vacations / bookings reaching outside the project window; pins and deadlines that contradict each other
+    or lie outside the horizon; both start and end given"""
+    m = gen.gen(rnd, subslot=False, ntasks=(2, 6), res_choices=(60, 30), weeks=(1, 3), alap=rnd.random() < 0.3, leaves=False)
+    st = m["start"]
+    span = timedelta(weeks=m.get("weeks", 2))
+    for r in m["resources"]:
+        k = rnd.random()
+        if k < 0.3:
+            r["leaves"] = [(st - timedelta(days=rnd.choice([1, 30, 400])), st + timedelta(days=rnd.choice([1, 3])))]
+        elif k < 0.5:
+            r["leaves"] = [(st + span - timedelta(days=2), st + span + timedelta(days=rnd.choice([1, 30, 4000])))]
+        elif k < 0.6:
+            r["leaves"] = [(st - timedelta(days=700), st - timedelta(days=690))]
+        elif k < 0.7:
+            r["vacs"] = [(st - timedelta(days=365), st + timedelta(days=366))]
+    if rnd.random() < 0.4:
+        m["vacations"] = [(st - timedelta(days=rnd.choice([1, 10])), st + timedelta(days=1)), (st + span, None)]
+    for t in m["tasks"]:
+        if t["container"]:
+            continue
+        k = rnd.random()
+        if k < 0.15:
+            t["start"] = st + timedelta(days=5)
+            t["end"] = st + timedelta(days=2)               # end before start
+        elif k < 0.3:
+            t["start"] = st + timedelta(days=1)
+            t["end"] = st + timedelta(days=rnd.choice([2, 9]))
+        elif k < 0.4 and "effort_min" not in t:
+            t["start"] = st + timedelta(days=rnd.choice([-3, 60, 700]))   # milestone pinned outside the window
+        elif k < 0.5 and "effort_min" not in t:
+            t["end"] = st + timedelta(days=rnd.choice([-3, 60, 700]))
+    return m, gen.render(m)
+
+
 BOUNDARY = ["0", "-1", "99999999999", "2025-02-30", "2025-13-01", "0000-00-00", "9999-12-31", "1970-01-01", "+0d", "+100000y", "25:00", "00:60", '""', "{", "}", "${x}",
             "!!!!", "1e309", "0.0000001h", "effort", "task", "\\", "\x00", "é", "2025-03-03-24:00", "1min", "60min"]
 
@@ -226,7 +295,7 @@ def corrupt(rnd, text):
 
 
 def cls_corrupted(rnd):
-    base = rnd.choice([cls_valid, cls_many_leaves, cls_scenarios_limits, cls_fixture])
+    base = rnd.choice([cls_valid, cls_many_leaves, cls_scenarios_limits, cls_fixture, cls_gaplength, cls_out_of_window])
     m, text = base(rnd)
     return m, corrupt(rnd, text)
 
@@ -252,7 +321,8 @@ def cls_fixture(rnd):
 
 CLASSES = [("valid", cls_valid, 3), ("cycle", cls_cycle, 2), ("bounds-past-end", cls_bounds_past_end, 2), ("never-works", cls_never_works, 2), ("efforts", cls_efforts, 2),
            ("unknown-empty-duration-resolution", cls_unknown_and_empty, 2), ("many-leaves", cls_many_leaves, 1), ("many-leave-lines", cls_leaves_many, 1),
-           ("scenarios-group-limits", cls_scenarios_limits, 1), ("corrupted", cls_corrupted, 6), ("fixture", cls_fixture, 1)]
+           ("scenarios-group-limits", cls_scenarios_limits, 1), ("corrupted", cls_corrupted, 6), ("fixture", cls_fixture, 1),
+           ("gaplength-maxgap", cls_gaplength, 2), ("macros", cls_macros, 2), ("out-of-window", cls_out_of_window, 3)]
 
 
 def unwrap(e):
@@ -280,7 +350,9 @@ def run_one(name, m, text, acc, cs, job):
     # logical step bound: generous multiple of what a project of this size needs (calibrated: see DESIGN C11)
     nlines = text.count("\n") + 1
     # absolute cap while running (aborts true hangs on logical steps); the size-relative bound is checked afterwards
-    bound = int(job["params"].get("step_cap", 120_000_000))
+    bound = int(job["params"].get("step_cap", 40_000_000))
+    if isinstance(m, dict) and m.get("giant"):
+        bound *= 15    # horizons of decades are legitimate and cost steps in proportion (judged by the size-relative bound afterwards)
     err = io.StringIO()
     outcome = None
     p = None
